@@ -14,6 +14,7 @@ RULE = (
     "every completion permutation the executor can realise is FORCED by a schedule controller (n=1..5 branches, workers 1..n and default) with order-sensitive aggregators. "
     "Distinct = (model kind, configuration, history/schedule); non-trivial = >=2 stages/branches."
     " Added after the seeded-fault rounds: one branching model across a sequence of inputs with overlapping conditions and a removal in between; parallel models with every one- and two-element subset of raising branches."
+    " Round 5: two pipelines (Sequential, Parallel) declared from one caller-owned list object and edited separately, each compared with its own list model."
 )
 ASSUMPTIONS = [
     "a permutation pi is realisable with w workers iff pi[k] < w + k (FIFO dispatch); infeasible ones are not attempted",
@@ -291,6 +292,42 @@ def run_unit(ctx, u):
                 else:
                     ok = [e[0] for e in log.events] == [f"s#{a}" for a in ref] and bool(torch.equal(out, expect_chain(ref, x0)))
                 ctx.check(ok, "history:add/remove = list model", f"{cls_name}|add/remove history|history:add/remove = list model|differs from list model", history=[list(o) for o in h], list_model=ref)
+        # two pipelines declared from ONE caller-owned list object, then edited separately: each must follow its own list model
+        def apply(model, ref, h, par, tag):
+            for op, a in h:
+                if op == "add":
+                    if par:
+                        model.add_step(stages[a], name=f"{tag}{len(ref)}_{a}_{rng.random()}")
+                    else:
+                        model.add_step(stages[a])
+                    ref.append(a)
+                elif 0 <= a < len(ref):
+                    model.remove_step(a)
+                    ref.pop(a)
+
+        for cls_name in ("SequentialModel", "ParallelModel"):
+            par = cls_name == "ParallelModel"
+            for hi, h in enumerate(hist[1 :: 5 if ctx.tier == "quick" else 2]):
+                log = Log()
+                stages = [RecModel(log, f"s#{i}", i) for i in range(3)]
+                init = [0, 1] if hi % 2 else [2]
+                declared = [(f"d{j}", stages[a]) for j, a in enumerate(init)] if par else [stages[a] for a in init]
+                agg = lambda rs: tuple(float(r.sum()) for r in rs)  # noqa: E731
+                A = ParallelModel(steps=declared, aggregator=agg) if par else SequentialModel(declared)
+                B = ParallelModel(steps=declared, aggregator=agg) if par else SequentialModel(declared)
+                ref_a, ref_b = list(init), list(init)
+                apply(A, ref_a, h, par, "a")
+                apply(B, ref_b, h[::-1][: len(h) // 2], par, "b")
+                ctx.case(cls_name, "twins", h, init, nontrivial=len(ref_a) >= 2 or len(ref_b) >= 2)
+                good = len(declared) == len(init)  # the caller's list itself is left alone
+                for model, ref in ((A, ref_a), (B, ref_b)):
+                    log.events.clear()
+                    out = model(x0)
+                    if par:
+                        good = good and out == (tuple(float(f(a, x0).sum()) for a in ref) if ref else {})
+                    else:
+                        good = good and [e[0] for e in log.events] == [f"s#{a}" for a in ref] and bool(torch.equal(out, expect_chain(ref, x0)))
+                ctx.check(good, "history:add/remove = list model", f"{cls_name}|two pipelines declared from one list|history:add/remove = list model|differs from list model", history=[list(o) for o in h], init=init, list_model_a=ref_a, list_model_b=ref_b)
         ctx.exhaustive_units += 1
         ctx.sample({"unit": "histories", "histories": len(hist), "example": [list(o) for o in hist[77]]})
         return
